@@ -14,12 +14,19 @@ _TRUSTED = [
     "kernel Float64/Uint63); the theorems are parametric in the sample type and the multiplication",
     "rustc/LLVM/std semantics of indexing, Option/Result, i16->i32 widening as encoded in the model primitives",
 ]
+# kernel primitives and FloatAxioms reported by Print Assumptions for the binary64 theorems (same family as C17)
+_PRIM = ['float', 'add', 'sub', 'mul', 'div', 'abs', 'ltb', 'leb', 'eqb', 'compare', 'normfr_mantissa', 'frshiftexp',
+         'int', 'lsr', 'land']
+_SPEC = ['add_spec', 'sub_spec', 'mul_spec', 'div_spec', 'ltb_spec', 'leb_spec', 'eqb_spec', 'compare_spec']
+_AX = (_PRIM + ['PrimFloat.' + p for p in _PRIM] + ['PrimInt63.' + p for p in _PRIM] + ['Uint63.' + p for p in _PRIM]
+       + _SPEC + ['FloatAxioms.' + a for a in _SPEC])
 CFG = dict(
     harness="phys",
     model="c10",
     ocaml_pkgs="zarith,coq-core.kernel",
     ocaml_flags="-rectypes -thread",
-    axioms=[],
+    model_units=["c10", "avt"],
+    axioms=_AX,
     uses_gen=False,
     rule='panic search on the real code: try_from_banks, timestamp(), avalanches(), vertex() under catch_unwind, observation ok / err / panic, the model predicting the class of try_from_banks and never `panic`. Cases: simulated-like multi-track events (response-shaped pulses, noise 0/3/30 counts, straight tracks from a common point so that vertices are found); the same events with packets decoded, changed and RE-ENCODED with valid CRCs and baselines: samples at i16::MIN/MAX in 7 patterns (all, after the delay only, sparse, alternating, ...), requested_samples 0/1/2/511/65535, suppression with keep_last at its bounds, 16-byte suppressed packets, waveforms cut at 64 and at delay-1/delay/delay+1, PWB packets with all 79 channels, requested_samples 0/1/delay+-1/511, only Fpn/Reset channels, header fields at their maxima, 1/2/3/7 chunks, TRG counters at 0 and 2^32-1; duplicated/missing/foreign banks (22 inconsistency classes); the single-check-decides cases of C10; random names (ASCII and multi-byte) and bytes. non-trivial = more than one bank or not rejected',
     trusted=_TRUSTED,
